@@ -550,6 +550,12 @@ fn corpus(jobs: &mut Vec<Job>) {
     let t = table(vec![("id", ColType::Id, ints(&[0, 1, 2, 3])), ("c1", ColType::Int("small"), oints(&[Some(3), None, Some(-1), None])), ("c2", ColType::Int("u8"), oints(&[Some(7), None, Some(9), Some(200)]))]);
     jobs.push(Job { prefix: "corpus:where-null-partition-empty/".into(), t, reals: vec![one(4), fixed_real(vec![0, 1, 2, 3, 4], vec![true, true, true, true], false, 999, Mode::Mem), fixed_real(vec![0, 3, 4], vec![true, true], false, 999, Mode::Mem)],
         queries: vec![Query { kind: Kind::Sel, items: vec![Item::Expr(Ex::Col(0)), Item::Expr(Ex::Col(1)), Item::Expr(Ex::Col(2))], pred: Some(Ex::Cmp(">=", Box::new(Ex::Col(1)), Box::new(Ex::Lit(Cell::Int(-3))))), order: vec![], limit: Some(2), offset: 0, feat: "w:i>=+lim".into() }] });
+    // where-null-partition-empty, reference answer Overflow (thorough seed 2001): global aggregate, SUM(c1) of the rows that pass the
+    // WHERE overflows (reference layout and [1,3]: Overflow); split [1,1,2]: no partition overflows alone, but the last one has c2 NULL
+    // throughout (WHERE constant) and stores c1 nullable -> planning fails there, FatalError `empty not supported for type Nullable…`
+    let t = table(vec![("id", ColType::Id, ints(&[0, 1, 2, 3])), ("c1", ColType::Int("edges"), oints(&[Some(i64::MAX - 1), Some(5), None, Some(3)])), ("c2", ColType::Int("u8"), oints(&[Some(7), Some(9), None, None]))]);
+    jobs.push(Job { prefix: "corpus:where-null-partition-empty/".into(), t, reals: vec![one(4), fixed_real(vec![0, 1, 2, 4], vec![true, true, true], false, 999, Mode::Mem), fixed_real(vec![0, 1, 4], vec![true, true], false, 999, Mode::Mem)],
+        queries: vec![Query { kind: Kind::Agg, items: vec![Item::Agg("sum", 1), Item::Agg("count", 0)], pred: Some(Ex::Cmp(">", Box::new(Ex::Col(2)), Box::new(Ex::Lit(Cell::Int(0))))), order: vec![], limit: None, offset: 0, feat: "w:i>+sucoI".into() }] });
     // minmax-float-infinity (C04/C02, open): MIN of a group {+inf} is f64::MAX in every layout
     let t = table(vec![("id", ColType::Id, ints(&[1, 2])), ("c1", ColType::Float("edges"), vec![Cell::f(f64::INFINITY), Cell::f(1.5)])]);
     jobs.push(Job { prefix: "corpus:minmax-float-infinity/".into(), t, reals: vec![one(2), fixed_real(vec![0, 1, 2], vec![true, false], false, 999, Mode::Mem), fixed_real(vec![0, 2], vec![true], false, 999, Mode::Disk)],
@@ -671,7 +677,7 @@ fn parse_cell_tok(c: &str) -> Cell {
 /// `c02 --replay <file>`: the file is a replay written by `check` (JSON with "model_line" and "note") or two lines
 /// `<model line>` / `<note>`.  Rebuilds every realisation named in the note, runs the SQL of the note and prints
 /// the outputs (and the query plans of the last realisation).
-fn replay(path: &std::path::Path) {
+fn replay(path: &std::path::Path, out_dir: Option<&std::path::Path>) {
     let txt = std::fs::read_to_string(path).unwrap();
     let (line, note) = if txt.trim_start().starts_with('{') {
         let j: serde_json::Value = serde_json::from_str(&txt).unwrap();
@@ -686,6 +692,8 @@ fn replay(path: &std::path::Path) {
     let t = LTable { n, names, types: vec![ColType::Id; ncols], cols };
     let sql = note.split(" | ").next().unwrap().to_string();
     println!("SQL {}", sql);
+    let kind = match toks[1] { "sel" => Kind::Sel, "ord" => Kind::Ord, "grp" => Kind::Grp, _ => Kind::Agg };
+    let (mut parts, mut outs, mut tags): (Vec<String>, Vec<String>, Vec<String>) = (vec![], vec![], vec![]);
     for seg in note.split("] R").map(|s| s.to_string()) {
         let Some(p) = seg.find('[') else { continue };
         let body = &seg[p + 1..];
@@ -699,19 +707,32 @@ fn replay(path: &std::path::Path) {
         let real = Real { r, mode, part_bytes: grab(" pb").parse().unwrap() };
         let db = build(&t, &real, "t");
         print!("{} split={:?} obs={} => ", real.tag(), db.split, db.obs);
-        match (&db.db, &db.fault) {
+        let tok = match (&db.db, &db.fault) {
             (Some(d), None) => {
                 if mode == Mode::Evict { evict(d); }
                 let d2 = d.clone(); let s2 = sql.clone();
-                match with_deadline(DEADLINE_S, move || futures::executor::block_on(d2.run_query(&s2, true, true, vec![]))) {
-                    None => println!("hang"),
-                    Some(Err(p)) => println!("panic {}", p),
-                    Some(Ok(Err(e))) => println!("ERR {}", format!("{:?}", e).chars().take(300).collect::<String>()),
-                    Some(Ok(Ok(o))) => { println!("{}", convert_output(&o).tok()); if std::env::var("C02_PLANS").is_ok() { for (p, n) in o.query_plans { println!("{} x {}", n, p); } } }
-                }
+                let qout = match with_deadline(DEADLINE_S, move || futures::executor::block_on(d2.run_query(&s2, true, true, vec![]))) {
+                    None => { println!("hang"); QOut::Hang }
+                    Some(Err(p)) => { println!("panic {}", p); QOut::Panic(p) }
+                    Some(Ok(Err(e))) => { println!("ERR {}", format!("{:?}", e).chars().take(300).collect::<String>()); QOut::Err(err_kind(&e).to_string()) }
+                    Some(Ok(Ok(o))) => { let c = convert_output(&o); println!("{}", c.tok()); if std::env::var("C02_PLANS").is_ok() { for (p, n) in o.query_plans { println!("{} x {}", n, p); } } c }
+                };
+                canon(&kind, &qout)
             }
-            (_, f) => println!("build fault {:?}", f),
-        }
+            (_, f) => { println!("build fault {:?}", f); format!("build-{}", QOut::Panic(format!("build {:?}", f)).tok()) }
+        };
+        parts.push(format!("{} {} {} {}", fmt_list(&db.split), real.r.batch_size, db.obs, tok));
+        tags.push(format!("R{}[{}]", tags.len(), real.tag()));
+        outs.push(tok);
+    }
+    // under `check --replay` (an --out directory is given): the re-measured case goes through the driver like any other case, so
+    // the verdict (OK / KNOWN-FINDING <id> / VIOLATION) is that of the current tree, not that of the run that wrote the replay
+    if let Some(dir) = out_dir {
+        let mut cases = Cases::create(dir);
+        let model_line = format!("{} {} {}", toks[..8 + ncols].join(" "), parts.len(), parts.join(" "));
+        let head: Vec<&str> = note.split(" | ").take(2).collect();
+        cases.push("replay", &model_line, &outs.join(" "), &format!("{} | {} | replayed from {}", head.join(" | "), tags.join(" "), path.display()));
+        cases.finish();
     }
 }
 
@@ -721,7 +742,7 @@ fn main() {
         vharness::locustdb::verif::set_sync_callback(Some(Box::new(|label: &str| {
             if label.starts_with("compact:input:") { OBS.lock().unwrap().push(label.to_string()); }
         })));
-        replay(p);
+        replay(p, if args.out == std::path::PathBuf::from(".") { None } else { Some(args.out.as_path()) });
         return;
     }
     quiet_panics();
